@@ -48,7 +48,19 @@ func main() {
 	only := flag.String("files", "", "comma-separated file filter")
 	limit := flag.Int("limit", 0, "max mutants (0 = all)")
 	restcheck := flag.String("restcheck", "/verif/bin/restcheck", "checker binary")
+	reuse := flag.String("reuse", "", "earlier output: build/test verdicts are taken from it, only the checker is re-run on survivors")
 	flag.Parse()
+	old := map[string]result{}
+	if *reuse != "" {
+		if b, err := os.ReadFile(*reuse); err == nil {
+			for _, l := range strings.Split(string(b), "\n") {
+				var r result
+				if json.Unmarshal([]byte(l), &r) == nil && r.File != "" {
+					old[r.File+"|"+fmt.Sprint(r.Line)+"|"+r.Op+"|"+r.Desc] = r
+				}
+			}
+		}
+	}
 
 	files, _ := filepath.Glob(filepath.Join(*repo, "*.go"))
 	sort.Strings(files)
@@ -101,9 +113,15 @@ func main() {
 				orig := srcs[s.File]
 				mut := append(append(append([]byte{}, orig[:s.start]...), []byte(s.repl)...), orig[s.end:]...)
 				os.WriteFile(filepath.Join(dir, s.File), mut, 0o644)
-				r.Build = run(dir, env, 60*time.Second, "go", "build", "./...")
+				if o, ok := old[s.File+"|"+fmt.Sprint(s.Line)+"|"+s.Op+"|"+s.Desc]; ok {
+					r.Build, r.Tests = o.Build, o.Tests
+				} else {
+					r.Build = run(dir, env, 60*time.Second, "go", "build", "./...")
+					if r.Build == "ok" {
+						r.Tests = run(dir, env, 120*time.Second, "go", "test", "-vet=off", "-count=1", "./...")
+					}
+				}
 				if r.Build == "ok" {
-					r.Tests = run(dir, env, 120*time.Second, "go", "test", "-vet=off", "-count=1", "./...")
 					if r.Tests == "ok" {
 						cmd := exec.Command(*restcheck, "-repo", dir, "-property", "all", "-no-evidence")
 						cmd.Env = append(env, "VERIF_DIR=/verif")
